@@ -57,7 +57,8 @@ func resolveComputedFields(env *Environment, errorSink *validation.ErrorSink) *E
 				}
 			}
 
-			rewritten := self.DefaultRewrite(node, &ComputedFieldScope{context.Record, context.RewrittenFields, append(context.CurrentFields, t), context.Variables})
+			// the variables declared by an enclosing !switch case belong to the expression that refers to this field, not to this field's own expression
+			rewritten := self.DefaultRewrite(node, &ComputedFieldScope{context.Record, context.RewrittenFields, append(context.CurrentFields, t), nil})
 			context.RewrittenFields[t] = rewritten.(*ComputedField)
 			return rewritten
 		case *TypeConversionExpression:
